@@ -141,6 +141,7 @@ def exec (v : Variant) (decode : List UInt8 → Option Info) (r : Registry) (p :
 inductive End
   | eof          -- the client's stream ended (read error): loop exits, cleanup runs
   | fatal        -- a FatalClientErr was answered: loop exits, cleanup runs
+  | writeFail    -- writing the answer of a successful command failed (peer gone): loop exits, cleanup runs
   | badMagic     -- E_BAD_PROTOCOL answered, connection closed
   | shortMagic   -- fewer than 4 bytes: closed without answer
   | panic        -- the process dies
@@ -173,8 +174,12 @@ def replyBytes : TcpOut → List UInt8
   | .identified => identifyReply
   | .err c msg => ascii (codeName c) ++ [32] ++ msg
 
-/-- `IOLoop` (fuel = an upper bound on the number of lines; each iteration consumes ≥ 1 byte) -/
-def ioLoop (v : Variant) (decode : List UInt8 → Option Info) (p : Nat) (now : Int) :
+/-- `IOLoop` (fuel = an upper bound on the number of lines; each iteration consumes ≥ 1 byte).
+`wf n` = the write of reply number `n` of this connection succeeds (the peer may stop reading
+and close at any moment). EVERY way out of the loop — read error, fatal error (whether or not
+its answer could be written), failed write of a success answer — runs the clean-up
+(`disconnect`); `acc` collects the replies that were delivered. -/
+def ioLoop (v : Variant) (decode : List UInt8 → Option Info) (wf : Nat → Bool) (p : Nat) (now : Int) :
     Nat → Registry → List UInt8 → List (List UInt8) → Res
   | 0, r, _, acc => ⟨disconnect r p, acc, .eof⟩
   | fuel + 1, r, inp, acc =>
@@ -184,17 +189,23 @@ def ioLoop (v : Variant) (decode : List UInt8 → Option Info) (p : Nat) (now : 
       match exec v decode r p now (splitSp (trimSpace lr.1)) lr.2 with
       | .panic _ => ⟨r, acc, .panic⟩
       | .reply r' out rest =>
-        if out.isErr then ⟨disconnect r' p, acc ++ [replyBytes out], .fatal⟩
-        else ioLoop v decode p now fuel r' rest (acc ++ [replyBytes out])
+        if out.isErr then
+          ⟨disconnect r' p, if wf acc.length then acc ++ [replyBytes out] else acc, .fatal⟩
+        else if !wf acc.length then ⟨disconnect r' p, acc, .writeFail⟩
+        else ioLoop v decode wf p now fuel r' rest (acc ++ [replyBytes out])
 
 /-- `tcpServer.Handle`: everything one connection `p` does with input `inp`. -/
-def handle (v : Variant) (decode : List UInt8 → Option Info) (r : Registry) (p : Nat) (now : Int)
-    (inp : List UInt8) : Res :=
+def handleW (v : Variant) (decode : List UInt8 → Option Info) (wf : Nat → Bool) (r : Registry) (p : Nat)
+    (now : Int) (inp : List UInt8) : Res :=
   match inp with
   | a :: b :: c :: d :: rest =>
-    if [a, b, c, d] = magicV1 then ioLoop v decode p now (rest.length + 1) r rest []
+    if [a, b, c, d] = magicV1 then ioLoop v decode wf p now (rest.length + 1) r rest []
     else ⟨r, [ascii "E_BAD_PROTOCOL"], .badMagic⟩
   | _ => ⟨r, [], .shortMagic⟩
+
+/-- a peer that reads every answer -/
+def handle (v : Variant) (decode : List UInt8 → Option Info) (r : Registry) (p : Nat) (now : Int)
+    (inp : List UInt8) : Res := handleW v decode (fun _ => true) r p now inp
 
 /-! ## HTTP route table (http.go `newHTTPServer`) -/
 
